@@ -123,7 +123,9 @@ def run(chk, prog, tier):
     check_siblings(chk, prog)
     c05.check_merge_stored(chk, prog)
     c05.check_insert_after_probe(chk, prog)
+    c05.check_change_reported(chk, prog)
     c03.check_restamp(chk, prog)
     extent_common.check_scan_extent(chk, prog)
+    c16.check_stale_count(chk, prog)
     c14.check_siblings(chk, prog)
     check_cutoff_pure(chk, prog)
